@@ -1097,7 +1097,7 @@ impl Compiler {
         if !params.is_empty() {
             func_compiler
                 .builder
-                .reserve_registers(params.len() as u8)?;
+                .reserve_registers_for(params.len())?;
         }
 
         // Compile parameter declarations
@@ -2030,7 +2030,7 @@ impl Compiler {
         if !ctor.params.is_empty() {
             func_compiler
                 .builder
-                .reserve_registers(ctor.params.len() as u8)?;
+                .reserve_registers_for(ctor.params.len())?;
         }
 
         // Compile parameter declarations inline (same as compile_function_body)
